@@ -25,6 +25,13 @@
 #include "polynomials_arithmetic.h"
 #include "lagrangehalfc_arithmetic.h"
 #include "keys_common.h"
+// access to the calling thread's FFT processor (scratch buffers are private members): the back-end's own header, after every
+// standard header has been seen
+#if defined(FAM_SPQLIOS) || defined(FAM_NAYUKI) || defined(FAM_FFTW)
+#define private public
+#include "lagrangehalfc_impl.h"
+#undef private
+#endif
 
 extern std::default_random_engine generator;
 
@@ -206,6 +213,46 @@ static void op_history(const V &a, V &r) {
     std::thread t([&]() { for (int i = 0; i < 6; i++) { std::vector<int32_t> o; eval_work(ws[i], o, n); evals++; if (o != ws[i].ref) mism++; } }); t.join();
     r.push_back(mism); r.push_back(evals);
 }
+// poison <spec> seed : the scratch buffers of the calling thread's FFT processor are overwritten (NaN, huge values, random bits)
+// before every evaluation; a transform that reads a scratch cell it has not written first would give a different answer
+static void fillbuf(double *p, size_t n, int pattern, std::mt19937 &rg) {
+    for (size_t i = 0; i < n; i++) {
+        if (pattern == 0) p[i] = std::nan("");
+        else if (pattern == 1) p[i] = (i & 1) ? 1e300 : -1e300;
+        else { uint64_t w = ((uint64_t) rg() << 32) | rg(); memcpy(&p[i], &w, 8); }
+    }
+}
+static int poison_scratch(int pattern, std::mt19937 &rg) {
+#if defined(FAM_SPQLIOS)
+    fillbuf(fftp1024.real_inout_direct, fftp1024.N, pattern, rg); fillbuf(fftp1024.real_inout_rev, fftp1024.N, pattern, rg); return 1;
+#elif defined(FAM_NAYUKI)
+    fillbuf(fp1024_nayuki.real_inout, fp1024_nayuki._2N, pattern, rg); fillbuf(fp1024_nayuki.imag_inout, fp1024_nayuki._2N, pattern, rg); return 1;
+#elif defined(FAM_FFTW)
+    fillbuf(fp1024_fftw.rev_in, fp1024_fftw._2N, pattern, rg); fillbuf(fp1024_fftw.out, fp1024_fftw._2N, pattern, rg);
+    fillbuf((double *) fp1024_fftw.rev_out, 2 * (fp1024_fftw.N + 1), pattern, rg); fillbuf((double *) fp1024_fftw.in, 2 * (fp1024_fftw.N + 1), pattern, rg); return 1;
+#else
+    (void) pattern; (void) rg; return 0;
+#endif
+}
+static void op_poison(const V &a, V &r) {
+    need_keys(a);
+    const int n = cur.params->in_out_params->n; const ll *v = a.data() + SPECN;
+    std::vector<Work> ws; make_work(ws, 6, n, (unsigned) v[0]);
+    for (auto &wk : ws) eval_work(wk, wk.ref, n);
+    long mism = 0, evals = 0, avail = 0; std::mt19937 rg((unsigned) v[0] + 9);
+    for (int pattern = 0; pattern < 3; pattern++) for (int i = 0; i < 6; i++) {
+        avail = poison_scratch(pattern, rg);
+        std::vector<int32_t> o; eval_work(ws[i], o, n); evals++;
+        if (o != ws[i].ref) mism++;
+    }
+    // plain FFT products as well
+    const int N = 1024; IntPolynomial *A = new_IntPolynomial(N); TorusPolynomial *B = new_TorusPolynomial(N), *R1 = new_TorusPolynomial(N), *R2 = new_TorusPolynomial(N);
+    for (int j = 0; j < N; j++) { A->coefs[j] = (int32_t) (rg() % 1024) - 512; B->coefsT[j] = (int32_t) rg(); }
+    torusPolynomialMultFFT(R1, A, B);
+    for (int pattern = 0; pattern < 3; pattern++) { poison_scratch(pattern, rg); torusPolynomialMultFFT(R2, A, B); evals++; if (memcmp(R1->coefsT, R2->coefsT, 4 * N)) mism++; }
+    delete_TorusPolynomial(R2); delete_TorusPolynomial(R1); delete_TorusPolynomial(B); delete_IntPolynomial(A);
+    r.push_back(mism); r.push_back(evals); r.push_back(avail);
+}
 // footprint: bytes of libtfhe's writable segments changed by a batch of evaluations after a warm-up
 struct Seg { char *p; size_t n; };
 static std::vector<Seg> segs;
@@ -246,6 +293,7 @@ int main() {
         else if (op == "threads") op_threads(a, r);
         else if (op == "history") op_history(a, r);
         else if (op == "footprint") op_footprint(a, r);
+        else if (op == "poison") op_poison(a, r);
         else { puts("NOOP"); fflush(stdout); continue; }
         out(r);
     }
